@@ -32,7 +32,10 @@ Lemma firstn_succ_nth (l : list N) (p : nat) : (p < length l)%nat -> firstn (S p
 Proof.
   revert p. induction l as [|x l IH]; intros p H; [cbn in H; lia|].
   destruct p as [|p]; [reflexivity|].
-  cbn [firstn nth app]. rewrite IH by (cbn in H; lia). reflexivity.
+  change (firstn (S (S p)) (x :: l)) with (x :: firstn (S p) l).
+  change (firstn (S p) (x :: l)) with (x :: firstn p l).
+  change (nth (S p) (x :: l) 0) with (nth p l 0).
+  rewrite (IH p) by (cbn in H; lia). reflexivity.
 Qed.
 
 (* one step keeps "what was written ++ the pending partial match = what was read" *)
